@@ -300,6 +300,106 @@ def mk_zero_price(which):
     return t
 
 
+def _nav(eng, v, toks):
+    for t in toks:
+        if isinstance(v, RefV): v = eng.deref_val(v)
+        if t == '*':
+            v = v.fields['__pointee'].val
+        else:
+            v = v.fields[int(t)]
+    return eng.deref_val(v) if isinstance(v, RefV) else v
+
+
+def t_adjust(world, oid='C09.g'):
+    """exchange-rate-adjusted variants: every price/confidence field of the loaded feed is replaced by adjust(<that same field>, <one ratio>)"""
+    import mirsym.engine as E
+    from specs.handlers import short
+    E.LIST_K = 4
+    OS = ENUMS['OracleSetup']
+    eng = world.engine(opaque=ADAPTER_OPAQUE, max_paths=20000)
+    eng.summaries = [(re.compile(r'^pyth_solana_receiver_sdk::id$'), lambda e, st, c, a: IntV(PYTH_RECEIVER, 'Pubkey'))]
+    f = world.fn(r'price\.rs:8\d[^>]*>::try_from_bank_with_max_age$|OraclePriceFeedAdapter[^>]*>::try_from_bank_with_max_age$')
+    args = [eng.ex.fresh(ty, n) for n, (_, ty) in zip(['bank', 'ais', 'clock', 'max_age'], f.params)]
+    res = eng.run_fn(f, args)
+    ob = Ob(oid, 'exchange-rate-adjusted oracle setups (Kamino, Drift, Solend x Pyth/Switchboard; staked): each field of the loaded feed (spot price, EMA price, spot conf, EMA conf / value, std_dev) is replaced by the adjuster applied to THAT field with one common rate; adjuster errors propagate; adjustment skipped only for an empty reserve; staked: both prices scaled by (stake - 1 SOL)/supply',
+            [f.name], 'adjusters and feed loaders opaque (their arithmetic is C20.a-c, the loaders C09.a/c); every accepting path'); ob.paths = len(res)
+    setup = fsym('bank*', 'Bank', 'config.oracle_setup')
+    FI = STRUCTS['PythPushOraclePriceFeed']
+    n_ok = 0
+    for r, okc in ok_paths(res):
+        E_ = [e for e in flat_events(r['events']) if e[0] == 'call']
+        lc = [e for e in E_ if re.search(r'load_checked$', e[1])]
+        if len(lc) != 1: continue
+        fam = None
+        for k in COUNT:
+            if k in ('PythPushOracle', 'SwitchboardPull', 'Fixed'): continue
+            s_ = ob._solver(eng, r, [okc, setup == OS[k]], 5000)
+            if s_.check() == z3.sat: fam = k
+        if fam is None: continue
+        if ob.witness(eng, r, [okc]) is False: continue
+        n_ok += 1
+        is_pyth = 'PythPush' in lc[0][1]
+        feed = lc[0][3].payload[0][0]; base = feed.name
+        out = r['ret'].payload[0][0]
+        outfeed = list(out.payload.values())[0][0] if isinstance(out, EnumV) else out
+        adj = [e for e in E_ if re.search(r'adjust_(i64|u64|i128)$', e[1])]
+        want = ({f'{b}.0.0.*.{k}' for b in (0, 1) for k in (0, 1)} if is_pyth else {'0.0.0.*.0.0', '0.0.0.*.0.1'}) if fam != 'StakedWithPythPush' else set()
+        if fam == 'StakedWithPythPush':
+            # inline arithmetic: price' = trunc(price * (stake - 1e9) / supply) for both messages
+            try:
+                names = free_consts(z3.And(r['pc']))
+                for b in (0, 1):
+                    orig = z3.Int(f'{base}.{b}.0.0.*.0')
+                    fin = ev(_nav(eng, outfeed, [str(b), '0', '0', '*', '0']))
+                    others = [z3.Int(n) for n in free_consts(fin) if n != str(orig)]
+                    ob.prove(eng, r, [okc], z3.Or([fin == tdiv(orig * x, y) for x in others for y in others if str(x) != str(y)] + [fin == tdiv(orig * (x - 10**9), y) for x in others for y in others if str(x) != str(y)]),
+                             f'staked: message {b} price == trunc(price * (stake - 1 SOL) / LST supply) of the same message', role='staked-adjust')
+                    try: cfin = ev(_nav(eng, outfeed, [str(b), '0', '0', '*', '1']))
+                    except KeyError: cfin = None      # never materialised = never read or written on this path
+                    if cfin is None: ob.queries += 1; ob.unsat += 1
+                    else: ob.prove(eng, r, [okc], cfin == z3.Int(f'{base}.{b}.0.0.*.1'), f'staked: message {b} confidence unchanged (conservative: not scaled down)', role='staked-conf')
+            except Exception as ex:
+                ob.fail(f'staked feed not readable: {ex!r}')
+            continue
+        if not adj:
+            ss = [e for e in E_ if re.search(r'scaled_supplies$', e[1])]
+            if fam.startswith('Drift') or len(ss) != 1:
+                ob.queries += 1; ob.sat += 1; ob.cex.append({'ob': ob.oid, 'label': f'{fam}: accepting path without any adjustment', 'role': 'no-adjust', 'model': {'trace': [short(e[1]) for e in E_]}, 'replay': None}); continue
+            tup = ss[0][3].payload[0][0]
+            col = ev(eng.get_path(tup, (('f', 1, I80),)))
+            ob.prove(eng, r, [okc], col <= 0, f'{fam}: adjustment skipped only when the reserve has no collateral supply', role='no-adjust')
+            continue
+        seen = set(); ratios = []
+        for e in adj:
+            method = 'MinimalSpotMarket' in e[1]
+            inp = e[2][1] if method else e[2][0]
+            ratios.append(cellname_(eng, e[2][0]) if method else str(z3.simplify(e[2][1].e)))
+            nm = str(inp.e)
+            if not nm.startswith(base + '.'):
+                ob.queries += 1; ob.sat += 1; ob.cex.append({'ob': ob.oid, 'label': f'{fam}: adjuster applied to {nm}, which is not a field of the loaded feed', 'role': 'adjust-input', 'model': {}, 'replay': None}); continue
+            path = nm[len(base) + 1:]
+            seen.add(path)
+            try: fin = ev(_nav(eng, outfeed, path.split('.')))
+            except Exception as ex: ob.fail(f'{fam}: cannot read field {path} of the returned feed: {ex!r}'); continue
+            res_ = e[3]
+            okd = 0 if 'Result' in res_.ty else 1
+            ob.prove(eng, r, [okc], z3.And(zint(res_.disc) == okd, fin == res_.payload[okd][0].e), f'{fam}: field {path} of the returned feed == adjuster(output) of that same field; adjuster error propagated', role='adjust-wiring')
+        ob.queries += 1
+        if seen == want and len(adj) == len(want) and len(set(ratios)) == 1: ob.unsat += 1
+        else: ob.sat += 1; ob.cex.append({'ob': ob.oid, 'label': f'{fam}: adjusted fields {sorted(seen)} (expected {sorted(want)}), {len(adj)} adjuster calls, {len(set(ratios))} distinct rates', 'role': 'adjust-wiring', 'model': {}, 'replay': None})
+    ob.notes.append(f'{n_ok} accepting paths of adjusted setups')
+    ob.need_witness()
+    return [ob]
+
+
+def cellname_(eng, v):
+    from specs.flows import cellname
+    n = cellname(v)
+    if n: return n
+    d = eng.deref_val(v) if isinstance(v, RefV) else v
+    return getattr(d, 'name', str(d))
+
+
 def t_pyth_account(world):
     from specs.handlers import short
     eng = world.engine(opaque=[r'deserialize$', r'try_borrow_data$'], max_paths=2000)
@@ -411,4 +511,4 @@ def t_max_age(world):
 
 
 def tasks(tier):
-    return [('switchboard', t_switchboard), ('scale', t_scale), ('pyth', t_pyth), ('swb_load', t_swb_load), ('adapter', t_adapter), ('pyth_account', t_pyth_account), ('pyth_age', t_pyth_age), ('max_age', t_max_age)] + [(f'zero_price_{w}', mk_zero_price(w)) for w in WITHDRAWS if w != 'drift']
+    return [('switchboard', t_switchboard), ('scale', t_scale), ('pyth', t_pyth), ('swb_load', t_swb_load), ('adapter', t_adapter), ('adjust', t_adjust), ('pyth_account', t_pyth_account), ('pyth_age', t_pyth_age), ('max_age', t_max_age)] + [(f'zero_price_{w}', mk_zero_price(w)) for w in WITHDRAWS if w != 'drift']
